@@ -42,7 +42,7 @@ K_UNDEF, K_CONST, K_ELEM, K_EXPR = 0, 1, 2, 3
 KIND_NAME = {K_CONST: "const", K_ELEM: "elem", K_EXPR: "expr"}
 PERMS3 = [(0, 1, 2), (1, 2, 0), (2, 0, 1), (0, 2, 1), (1, 0, 2), (2, 1, 0)]
 
-SRC_FILES = ("src/interpreter/Generator.cpp", "src/interpreter/Node.h", "src/interpreter/Engine.cpp", "src/interpreter/Index.h",
+SRC_FILES = ("src/interpreter/Relation.h", "src/interpreter/Generator.cpp", "src/interpreter/Node.h", "src/interpreter/Engine.cpp", "src/interpreter/Index.h",
              "src/interpreter/Util.h", "src/include/souffle/datastructure/EquivalenceRelation.h", "src/include/souffle/datastructure/EqRel.h",
              "src/synthesiser/Relation.cpp", "src/synthesiser/Synthesiser.cpp", "src/include/souffle/RamTypes.h")
 
@@ -108,6 +108,9 @@ template <class T> struct vector {
     void put(const T& x) { switch (n) { case 0: d[0] = x; break; case 1: d[1] = x; break; case 2: d[2] = x; break; case 3: d[3] = x; break; default: __builtin_trap(); } n++; }
     T* begin() { return d; } T* end() { return d + n; }
     const T* begin() const { return d; } const T* end() const { return d + n; }
+    T& at(std::size_t i) { if (i >= n) __builtin_trap(); return d[i]; }
+    const T& at(std::size_t i) const { if (i >= n) __builtin_trap(); return d[i]; }
+    void swap(vector& o) { for (int i = 0; i < 4; i++) { T x = d[i]; d[i] = o.d[i]; o.d[i] = x; } std::size_t m = n; n = o.n; o.n = m; }
 };
 }
 /* ------------------------------------------------------------------------------------------------ eqrel index stub */
@@ -172,6 +175,62 @@ struct BtRel { static constexpr std::size_t Arity = 3; using View = BtIndex::Vie
     template <class R, class T> static void emit(int* out, const R& r, const T& low, const T& high) {
         out[0] = member<3>(souffle::Tuple<RamDomain, 3>{{cand[0], cand[1], cand[2]}}, r);
         for (int i = 0; i < 3; i++) { out[1 + i] = low[i]; out[4 + i] = high[i]; } } };
+}
+/* ---------------------------------------------------- interpreter Relation.h: every mutating operation reaches ALL indexes */
+namespace verif_rel {
+using souffle::RamDomain;
+template <std::size_t, std::size_t> struct Eqrel {};
+template <std::size_t, std::size_t> struct Btree {};
+template <std::size_t, std::size_t> struct BtreeDelete {};
+template <class T> struct Own { T* p = nullptr; T* get() const { return p; } T* operator->() const { return p; } T& operator*() const { return *p; } };
+template <class T> using VecOwn = vstd::vector<Own<T>>;
+/* recording fake index.  `content` abstracts the stored pairs: C_NEW explicit new knowledge, C_OLD old knowledge, C_IMPL the pairs
+   implied by new and old together; has_t: the one tuple the harness inserts / erases is stored */
+enum { C_NEW = 1, C_OLD = 2, C_IMPL = 4 };
+template <std::size_t Arity, std::size_t Aux, template <std::size_t, std::size_t> typename Structure> struct Index {
+    using Tuple = souffle::Tuple<RamDomain, Arity>;
+    int content = 0; int has_t = 0; int n_ops = 0; int arg_ok = 1; RamDomain want[Arity];
+    bool insert(const Tuple& t) { n_ops++; for (std::size_t i = 0; i < Arity; i++) if (t[i] != want[i]) arg_ok = 0; bool fresh = !has_t; has_t = 1; return fresh; }
+    void insert(const Index& src) { n_ops++; content |= src.content; has_t |= src.has_t; }
+    bool contains(const Tuple&) const { return has_t != 0; }
+    std::size_t size() const { return (content != 0 || has_t) ? 1 : 0; }
+    bool empty() const { return size() == 0; }
+    void clear() { n_ops++; content = 0; has_t = 0; }
+};
+struct EqrelIndex : Index<2, 0, Eqrel> {
+    /* this := this + pairs implied together with other's old knowledge;  other := other + this */
+    void extendAndInsert(EqrelIndex* o) { n_ops++; if ((content & C_NEW) && (o->content & C_OLD)) content |= C_IMPL; o->content |= content; o->has_t |= has_t; }
+};
+template <std::size_t A, std::size_t X> struct BtreeDeleteIndex : Index<A, X, BtreeDelete> {
+    using Tuple = souffle::Tuple<RamDomain, A>;
+    bool erase(const Tuple& t) { this->n_ops++; for (std::size_t i = 0; i < A; i++) if (t[i] != this->want[i]) this->arg_ok = 0; bool had = this->has_t != 0; this->has_t = 0; return had; }
+};
+struct RelationWrapper { virtual ~RelationWrapper() = default; virtual void purge() = 0; virtual void insert(const RamDomain*) = 0; };
+template <std::size_t _Arity, std::size_t _AuxiliaryArity, template <std::size_t, std::size_t> typename Structure>
+class Relation : public RelationWrapper {
+public:
+    static constexpr std::size_t Arity = _Arity;
+    static constexpr std::size_t AuxiliaryArity = _AuxiliaryArity;
+    using Index = verif_rel::Index<Arity, AuxiliaryArity, Structure>;
+    using Tuple = souffle::Tuple<RamDomain, Arity>;
+    /* ---- verbatim member functions of souffle::interpreter::Relation (interpreter/Relation.h) ---- */
+    @REL_MEMBERS@
+    /* ---- the two data members, as declared in Relation.h ---- */
+    VecOwn<Index> indexes;
+    Index* main;
+};
+/* ---- verbatim from interpreter/Relation.h ---- */
+@REL_BTREEDELETE@;
+@REL_EQREL@;
+static EqrelIndex EQI[2][3];
+static BtreeDeleteIndex<2, 0> BDI[3];
+static Index<2, 0, Btree> BTI[2][3];
+template <class R, class I> void build(R& r, I* ix, int n, int content, int has_t, RamDomain a, RamDomain b) {
+    for (int i = 0; i < 3; i++) { ix[i] = I(); ix[i].content = content; ix[i].has_t = has_t; ix[i].want[0] = a; ix[i].want[1] = b; }
+    for (int i = 0; i < n; i++) { Own<typename R::Index> o; o.p = &ix[i]; r.indexes.push_back(o); }
+    r.main = r.indexes[0].get();
+}
+template <class I> void report(int* out, const I* ix) { for (int i = 0; i < 3; i++) { out[4 * i] = ix[i].content; out[4 * i + 1] = ix[i].has_t; out[4 * i + 2] = ix[i].n_ops; out[4 * i + 3] = ix[i].arg_ok; } }
 }
 /* --------------------------------------------------------------------------- interpreter: Generator + Engine slices */
 namespace verif_gen {
@@ -296,6 +355,48 @@ __attribute__((noinline)) void k_bti_scan(int o0, int o1, int o2, const int* kin
     for (int i = 0; i < 3; i++) verif_bt::cand[i] = t[i];
     verif_gen::scan<verif_bt::BtRel, verif_bt::BtIndex::View, verif_bt::StubBtree<3, 0>>(3, ord, kinds, vals, out);
 }
+/* out: per index (3 slots) content, has_t, number of calls received, arguments-as-given; out[12] result; out[13..] second relation */
+__attribute__((noinline)) void k_rel_insert(int n, int pre, int a, int b, int raw, int eq, int* out) {
+    using namespace verif_rel;
+    if (n < 1 || n > 3) __builtin_trap();
+    souffle::RamDomain data[2] = {a, b};
+    if (eq) { EqrelRelation r; build(r, EQI[0], n, 0, pre, a, b); if (raw) { r.insert(data); out[12] = -1; } else out[12] = r.insert(souffle::Tuple<souffle::RamDomain, 2>{{a, b}}); report(out, EQI[0]); }
+    else { Relation<2, 0, Btree> r; build(r, BTI[0], n, 0, pre, a, b); if (raw) { r.insert(data); out[12] = -1; } else out[12] = r.insert(souffle::Tuple<souffle::RamDomain, 2>{{a, b}}); report(out, BTI[0]); }
+}
+__attribute__((noinline)) void k_rel_purge(int n, int virt, int eq, int* out) {
+    using namespace verif_rel;
+    if (n < 1 || n > 3) __builtin_trap();
+    if (eq) { EqrelRelation r; build(r, EQI[0], n, C_NEW | C_OLD, 1, 0, 0); if (virt) r.purge(); else r.__purge(); report(out, EQI[0]); }
+    else { Relation<2, 0, Btree> r; build(r, BTI[0], n, C_OLD, 1, 0, 0); if (virt) r.purge(); else r.__purge(); report(out, BTI[0]); }
+}
+/* RAM MERGE-EXTEND trg WITH src: Engine calls src.extendAndInsert(trg); src = @new (explicit new pairs), trg = the full relation */
+__attribute__((noinline)) void k_rel_extend(int nsrc, int ntrg, int* out) {
+    using namespace verif_rel;
+    if (nsrc < 1 || nsrc > 3 || ntrg < 1 || ntrg > 3) __builtin_trap();
+    EqrelRelation src, trg; build(src, EQI[0], nsrc, C_NEW, 0, 0, 0); build(trg, EQI[1], ntrg, C_OLD, 0, 0, 0);
+    src.extendAndInsert(trg);
+    report(out, EQI[0]); report(out + 13, EQI[1]);
+}
+__attribute__((noinline)) void k_rel_erase(int n, int pre, int a, int b, int* out) {
+    using namespace verif_rel;
+    if (n < 1 || n > 3) __builtin_trap();
+    BtreeDeleteRelation<2, 0> r; build(r, BDI, n, 0, pre, a, b);
+    out[12] = r.erase(souffle::Tuple<souffle::RamDomain, 2>{{a, b}});
+    report(out, BDI);
+}
+/* Relation::swap (not used by the Engine, which swaps relation handles): the index sets are exchanged */
+__attribute__((noinline)) void k_rel_swap(int n1, int n2, int* out) {
+    using namespace verif_rel;
+    if (n1 < 1 || n1 > 3 || n2 < 1 || n2 > 3) __builtin_trap();
+    Relation<2, 0, Btree> r1, r2; build(r1, BTI[0], n1, C_NEW, 0, 0, 0); build(r2, BTI[1], n2, C_OLD, 0, 0, 0);
+    r1.swap(r2);
+    out[0] = (int)r1.indexes.size(); out[1] = (int)r2.indexes.size();
+    int ok = 1;
+    for (std::size_t i = 0; i < r1.indexes.size(); i++) if (r1.indexes[i].get() != &BTI[1][i]) ok = 0;
+    for (std::size_t i = 0; i < r2.indexes.size(); i++) if (r2.indexes[i].get() != &BTI[0][i]) ok = 0;
+    out[2] = ok;
+    out[3] = (r1.main == r1.indexes[0].get()) && (r2.main == r2.indexes[0].get());
+}
 @SYNKERNELS@
 }
 '''
@@ -351,6 +452,33 @@ def slice_sources(work):
     s["n_lb_overloads"] = len(lbs)
     s["getboundaries"] = K.extract_braced(eqh, r"\n    template <unsigned levels>\n    range<iterator> getBoundaries\(const TupleType& entry, operation_hints&\) const \{",
                                           "EquivalenceRelation::getBoundaries").strip()
+    # interpreter/Relation.h: the mutating member functions of Relation<> and the derived EqrelRelation / BtreeDeleteRelation classes
+    relh = common.read_repo("src/interpreter/Relation.h")
+    cls_start = relh.find("\nclass Relation : public RelationWrapper {")
+    cls_end = relh.find("\ntemplate <std::size_t _Arity, std::size_t _AuxiliaryArity>\nclass BtreeDeleteRelation")
+    if cls_start < 0 or cls_end < cls_start:
+        raise EngineError("slice anchor not found: class Relation / class BtreeDeleteRelation in interpreter/Relation.h")
+    rcls = relh[cls_start:cls_end]
+    members = []
+    for what, pat in (("Relation::constructTuple", r"\n    static Tuple constructTuple\(const RamDomain\* data\) \{"),
+                      ("Relation::purge", r"\n    void purge\(\) override \{"),
+                      ("Relation::insert(const RamDomain*)", r"\n    void insert\(const RamDomain\* data\) override \{"),
+                      ("Relation::insert(const Tuple&)", r"\n    bool insert\(const Tuple& tuple\) \{"),
+                      ("Relation::swap", r"\n    void swap\(Relation<Arity, AuxiliaryArity, Structure>& other\) \{"),
+                      ("Relation::__purge", r"\n    void __purge\(\) \{")):
+        members.append(K.extract_braced(rcls, pat, what).strip())
+    if not re.search(r"\n    VecOwn<Index> indexes;", rcls) or not re.search(r"\n    Index\* main;", rcls):
+        raise EngineError("Relation no longer declares `VecOwn<Index> indexes; Index* main;`: the relation slice is out of date")
+    # every other member that touches `indexes` / `main` must be a reader (listed here) -- a new mutating member must not go unnoticed
+    known = ("createView", "getIndexOrder", "begin", "end", "contains", "scan", "partitionScan", "range", "partitionRange", "__size", "empty", "exists",
+             "getIndex", "printStats", "Relation", "RelationWrapper", "size", "insert", "swap", "__purge", "purge", "constructTuple", "castView", "iterator_base", "clone", "equal")
+    for mm in re.finditer(r"\n    (?:[\w:<>,\s\*&]+?[\s\*&])?(\w+)\(([^)]*)\)(?: const)?(?: override)? \{", rcls):
+        if mm.group(1) not in known and mm.group(1) not in ("operator", "for", "if", "while"):
+            raise EngineError("interpreter Relation has a member function the relation slice does not know: %s(%s)" % (mm.group(1), mm.group(2)))
+    s["rel_members"] = "\n    ".join(members)
+    s["rel_btreedelete"] = K.extract_braced(relh, r"\ntemplate <std::size_t _Arity, std::size_t _AuxiliaryArity>\nclass BtreeDeleteRelation : public Relation<_Arity, _AuxiliaryArity, BtreeDelete> \{",
+                                            "class BtreeDeleteRelation").strip()
+    s["rel_eqrel"] = K.extract_braced(relh, r"\nclass EqrelRelation : public Relation<2, 0, Eqrel> \{", "class EqrelRelation").strip()
     # compiled wrapper (header in this version of souffle; EqrelRelation::generateTypeStruct only emits the include)
     rel_cpp = common.read_repo("src/synthesiser/Relation.cpp")
     gts = K.extract_braced(rel_cpp, r"\nvoid EqrelRelation::generateTypeStruct\(GenDb& db\) \{", "EqrelRelation::generateTypeStruct")
@@ -409,6 +537,7 @@ def build_tu(s):
     for k, v in (("@LB@", s["lb"]), ("@UB@", s["ub"]), ("@SUPERCLASS@", s["superclass"]), ("@GETSUPER@", s["getsuper"]), ("@MACROS@", s["macros"]),
                  ("@SCANHEAD@", s["scanhead"]), ("@GETBOUNDARIES@", s["getboundaries"]), ("@ITER0@", s["iter0"]), ("@ITER1@", s["iter1"]),
                  ("@LUR@", s["lur"]), ("@REORDER@", s["reorder"]), ("@SYNKERNELS@", "\n".join(kern)),
+                 ("@REL_MEMBERS@", s["rel_members"]), ("@REL_BTREEDELETE@", s["rel_btreedelete"]), ("@REL_EQREL@", s["rel_eqrel"]),
                  ):
         t = t.replace(k, v)
     return t
@@ -418,12 +547,13 @@ def build_tu(s):
 # checks (shared by the CBMC harness and the native replay driver)
 # ------------------------------------------------------------------------------------------------------------------
 class Check:
-    def __init__(self, cid, group, pattern, nin, body, what, bound=(), meta=None, e2e=None, dom="1"):
+    def __init__(self, cid, group, pattern, nin, body, what, bound=(), meta=None, e2e=None, dom="1", key=None):
         self.cid, self.group, self.pattern, self.nin, self.body, self.what = cid, group, pattern, nin, body, what
         self.bound = list(bound)        # [(IN index, 'first'|'second')]: the cells that hold bound column values
         self.meta = meta or {}
         self.e2e = e2e                  # pattern name for the end-to-end replay (interpreter eqrel only)
         self.dom = dom                  # assumed domain of the inputs (C expression over IN[])
+        self.key = key                  # fixed finding key (checks without value classes)
 
 
 def _tok_expect(kind_expr, a=None, b=None, base=0):
@@ -568,6 +698,57 @@ def build_checks(s, tier):
                 checks.append(Check(cid, "interp-btree", "/".join(sh_), 15, b,
                                     "interpreter B-tree index of arity 3, index order %s, per-position constraints %s, values given as %s" % (list(perm), sh_, KIND_NAME[kv]),
                                     [], {"index_order": list(perm), "constraints_by_index_position": sh_, "bound_value_kinds": KIND_NAME[kv]}))
+    # ---- (IV) interpreter Relation.h: every mutating operation reaches all indexes of the relation.  The number of indexes (1..3) is
+    #      enumerated outside the query: a symbolic count makes every index access symbolic (0.5-1.2 M variables per query, measured).
+    th = tier == "thorough"
+    all_i = lambda n, cond: " && ".join("(%s)" % (cond % {"o": 4 * i}) for i in range(n))
+    for eq in (0, 1):
+        kind = "EqrelRelation" if eq else "Relation<2,0,Btree>"
+        tag = "eqrel" if eq else "btree"
+        for n in ((1, 2, 3) if (eq or th) else (3,)):
+            b = ["k_rel_insert(%d, IN[1], IN[2], IN[3], IN[4], %d, (uint32_t*)OUT);" % (n, eq),
+                 'CHECK(%s, "after insert(tuple) every index of the relation stores the tuple");' % all_i(n, "OUT[%(o)d + 1] == 1"),
+                 'CHECK(%s, "every index that is updated receives the tuple as given");' % all_i(n, "OUT[%(o)d + 3] == 1"),
+                 'CHECK(IN[4] || OUT[12] == !IN[1], "insert reports whether the tuple was new");']
+            checks.append(Check("rel_insert_%s_n%d" % (tag, n), "interp-relation", "insert", 5, b,
+                                "interpreter %s::insert (typed and raw-data entry points), %d indexes, tuple present in all / in none before" % (kind, n),
+                                [], {"operation": "insert", "relation": kind, "indexes": n}, dom="(IN[1] == 0 || IN[1] == 1) && (IN[4] == 0 || IN[4] == 1)",
+                                key="relation-indexes:insert:%s" % tag))
+        for n in ((1, 2, 3) if th else (2, 3) if eq else (3,)):
+            b = ["k_rel_purge(%d, IN[1], %d, (uint32_t*)OUT);" % (n, eq),
+                 'CHECK(%s, "after purge every index of the relation is empty");' % all_i(n, "OUT[%(o)d] == 0 && OUT[%(o)d + 1] == 0")]
+            checks.append(Check("rel_purge_%s_n%d" % (tag, n), "interp-relation", "purge", 2, b,
+                                "interpreter %s::purge / __purge, %d non-empty indexes" % (kind, n), [], {"operation": "purge", "relation": kind, "indexes": n},
+                                dom="(IN[1] == 0 || IN[1] == 1)", key="relation-indexes:purge:%s" % tag))
+    pairs = [(a_, b_) for a_ in (1, 2, 3) for b_ in (1, 2, 3)]
+    for ns, nt in (pairs if th else [(1, 1), (2, 2), (3, 1), (2, 3)]):
+        b = ["k_rel_extend(%d, %d, (uint32_t*)OUT);" % (ns, nt),
+             'CHECK(%s, "after MERGE-EXTEND every index of the extended (@new) relation holds the new pairs and the pairs implied together with the old knowledge");'
+             % all_i(ns, "(OUT[%(o)d] & 5) == 5")]
+        checks.append(Check("rel_extend_source_n%d%d" % (ns, nt), "interp-relation", "extendAndInsert", 1, b,
+                            "interpreter EqrelRelation::extendAndInsert (RAM MERGE-EXTEND), source side: %d source / %d target indexes" % (ns, nt), [],
+                            {"operation": "extendAndInsert", "side": "source (@new, becomes @delta after SWAP)", "indexes": [ns, nt]}, e2e="merge-extend",
+                            key="relation-indexes:extendAndInsert:source-index-not-extended"))
+    for ns, nt in (pairs if th else [(1, 2), (2, 3), (3, 1)]):
+        b = ["k_rel_extend(%d, %d, (uint32_t*)OUT);" % (ns, nt),
+             'CHECK(%s, "after MERGE-EXTEND every index of the target relation holds its old pairs and the new pairs");' % all_i(nt, "(OUT[13 + %(o)d] & 3) == 3")]
+        checks.append(Check("rel_extend_target_n%d%d" % (ns, nt), "interp-relation", "extendAndInsert", 1, b,
+                            "interpreter EqrelRelation::extendAndInsert (RAM MERGE-EXTEND), target side: %d source / %d target indexes" % (ns, nt), [],
+                            {"operation": "extendAndInsert", "side": "target (the full relation)", "indexes": [ns, nt]},
+                            key="relation-indexes:extendAndInsert:target-index-not-updated"))
+    for n in ((1, 2, 3) if th else (1, 3)):
+        b = ["k_rel_erase(%d, IN[1], IN[2], IN[3], (uint32_t*)OUT);" % n,
+             'CHECK(%s, "after erase(tuple) no index of the relation stores the tuple");' % all_i(n, "OUT[%(o)d + 1] == 0"),
+             'CHECK(%s, "every index that is updated receives the tuple as given");' % all_i(n, "OUT[%(o)d + 3] == 1"),
+             'CHECK(OUT[12] == IN[1], "erase reports whether the tuple was present");']
+        checks.append(Check("rel_erase_btreedelete_n%d" % n, "interp-relation", "erase", 4, b, "interpreter BtreeDeleteRelation::erase, %d indexes, tuple present in all / in none before" % n,
+                            [], {"operation": "erase", "relation": "BtreeDeleteRelation<2,0>", "indexes": n}, dom="(IN[1] == 0 || IN[1] == 1)", key="relation-indexes:erase:btreedelete"))
+    for n1, n2 in (pairs if th else [(2, 3)]):
+        b = ["k_rel_swap(%d, %d, (uint32_t*)OUT);" % (n1, n2),
+             'CHECK(OUT[0] == %d && OUT[1] == %d && OUT[2] == 1, "swap exchanges the complete index sets of the two relations");' % (n2, n1)]
+        checks.append(Check("rel_swap_n%d%d" % (n1, n2), "interp-relation", "swap", 1, b, "interpreter Relation::swap, %d / %d indexes (the `main` pointers are not part of the obligation)" % (n1, n2),
+                            [], {"operation": "swap", "note": "Relation::swap is not called by the Engine (RAM SWAP exchanges relation handles)", "indexes": [n1, n2]},
+                            key="relation-indexes:swap"))
     return checks
 
 
@@ -578,7 +759,7 @@ enum { T_BEGIN = 1, T_END = 2, T_ANT = 3, T_PAIR = 4 };
 #define MINV (-2147483647 - 1)
 #define MAXV 2147483647
 int32_t IN[16]; int32_t NE, CT;
-int32_t OUT[24], KINDS[6], VALS[6], TUP[3];
+int32_t OUT[32], KINDS[6], VALS[6], TUP[3];
 int ne_calls, ct_calls; int32_t ne_arg, ct_a, ct_b;
 #ifdef __CPROVER__
 void verif_assert_fail(uint8_t* a, uint8_t* f, uint32_t l, uint8_t* fn) { __CPROVER_assert(0, "assert() inside the real code failed"); __CPROVER_assume(0); }
@@ -591,6 +772,8 @@ uint32_t verif_contains(uint32_t a, uint32_t b) { ct_calls++; ct_a = (int32_t)a;
 void k_eqi_scan(uint32_t, uint32_t*, uint32_t*, uint32_t*);
 void k_eqi_idxrange(uint32_t, uint32_t, uint32_t, uint32_t, uint32_t*);
 void k_bti_scan(uint32_t, uint32_t, uint32_t, uint32_t*, uint32_t*, uint32_t*, uint32_t*);
+void k_rel_insert(uint32_t, uint32_t, uint32_t, uint32_t, uint32_t, uint32_t, uint32_t*); void k_rel_purge(uint32_t, uint32_t, uint32_t, uint32_t*);
+void k_rel_extend(uint32_t, uint32_t, uint32_t*); void k_rel_erase(uint32_t, uint32_t, uint32_t, uint32_t, uint32_t*); void k_rel_swap(uint32_t, uint32_t, uint32_t*);
 @SYNDECLS@
 #endif
 @CHECKS@
@@ -660,6 +843,8 @@ int main(int argc, char** argv) {
     for (int it = 0; it < 150; it++) {
       for (int i = 0; i < T[k].nin; i++) { s = s * 1103515245u + 12345u; IN[i] = (s >> 29) ? BV[(s >> 8) % NBV] : (int32_t)((s >> 8) ^ (s << 11)); }
       s = s * 1103515245u + 12345u; NE = (s >> 16) & 1; CT = (s >> 17) & 1;
+      if (!strncmp(T[k].cid, "rel_", 4)) { for (int i = 0; i < T[k].nin; i++) { s = s * 1103515245u + 12345u; IN[i] = (i == 2 || i == 3) && T[k].nin > 3 ? (int32_t)(s >> 8) : (int32_t)((s >> 16) % 3); } }
+      if (!T[k].dom()) continue;
       reset(); T[k].chk();
       printf("%s %d:", T[k].cid, it); for (int i = 0; i < 14; i++) printf(" %d", OUT[i]); printf(" | %d %d %d %d %d\n", ne_calls, ne_arg, ct_calls, ct_a, ct_b);
     }
@@ -799,6 +984,52 @@ def e2e_replay(work, pattern, x, y, tag):
     return (got is not None and got != exp), info, files
 
 
+MERGE_PROGRAM = """.decl in(x:number,y:number)
+.input in
+.decl mark(y:number)
+.input mark
+.decl mark2(y:number)
+.input mark2
+.decl g(x:number,a:number,w:number)
+.input g
+.decl h(x:number,a:number,w:number)
+.input h
+.decl eq(x:number,y:number) eqrel
+.output eq
+eq(x,y) :- in(x,y).
+eq(a,w) :- mark(y), eq(x,y), g(x,a,w).
+eq(a,w) :- mark2(x), eq(x,y), h(y,a,w).
+"""
+
+
+def e2e_merge_extend(work):
+    """A recursive eqrel relation searched in two orders: @new gets two indexes; after MERGE-EXTEND and SWAP the rule that reads @delta
+    through the non-main index needs a pair that exists only as implied knowledge (1~2 old, 2~3 new => 1~3)."""
+    souffle = common.ensure_souffle()
+    res_all = []
+    for tag, marks in (("second-order", {"mark": "1\n", "mark2": ""}), ("first-order", {"mark": "", "mark2": "1\n"})):
+        d = os.path.join(work, "e2e_merge_" + tag)
+        os.makedirs(d, exist_ok=True)
+        files = {"prog.dl": MERGE_PROGRAM, "in.facts": "1\t2\n", "g.facts": "2\t2\t3\n3\t10\t11\n", "h.facts": "2\t2\t3\n3\t20\t21\n",
+                 "mark.facts": marks["mark"], "mark2.facts": marks["mark2"]}
+        for fn, txt in files.items():
+            open(os.path.join(d, fn), "w").write(txt)
+        rc, out, err = sh([souffle, "prog.dl", "-F.", "-D."], timeout=120, cwd=d)
+        got = None
+        if rc == 0 and os.path.exists(os.path.join(d, "eq.csv")):
+            got = sorted(tuple(int(v) for v in ln.split("\t")) for ln in open(os.path.join(d, "eq.csv")).read().splitlines() if ln.strip())
+        want = (10, 11) if marks["mark"] else (20, 21)
+        res_all.append((tag, files, got, want, got is not None and want not in got))
+    bad = [r for r in res_all if r[4]]
+    tag, files, got, want, _ = (bad or res_all)[0]
+    files = dict(files)
+    files["eq.csv"] = "".join("%d\t%d\n" % p for p in got) if got is not None else "(souffle failed)\n"
+    info = {"program": "eq(x,y) :- in(x,y). eq(a,w) :- mark(y), eq(x,y), g(x,a,w). eq(a,w) :- mark2(x), eq(x,y), h(y,a,w).",
+            "in": "in={(1,2)} g={(2,2,3),(3,10,11)} h={(2,2,3),(3,20,21)} mark=%s mark2=%s" % ("{1}" if files["mark.facts"] else "{}", "{1}" if files["mark2.facts"] else "{}"),
+            "lookup_value": None, "expected": list(want), "interpreter_output": [list(p) for p in got] if got is not None else None}
+    return bool(bad), info, files
+
+
 def triage(work, obls, res, cpp, state):
     """Replays counterexamples; returns the obligations to run in the next round (same pattern, found class excluded)."""
     native = os.path.join(work, "diff_real")
@@ -845,8 +1076,8 @@ def triage(work, obls, res, cpp, state):
             cname = sent[0][1]
         else:
             cname = ",".join("%s=%s" % x for x in sent)
-        prefix = {"interp-eqrel": "eqrel-lookup", "compiled-eqrel": "eqrel-lookup-compiled", "interp-btree": "btree-lookup"}[ck.group]
-        key = "%s:%s:%s" % (prefix, ck.pattern if ck.group != "interp-btree" else ck.cid, cname)
+        prefix = {"interp-eqrel": "eqrel-lookup", "compiled-eqrel": "eqrel-lookup-compiled", "interp-btree": "btree-lookup", "interp-relation": "relation-indexes"}[ck.group]
+        key = ck.key or "%s:%s:%s" % (prefix, ck.pattern if ck.group != "interp-btree" else ck.cid, cname)
         state["instances"].setdefault(key, []).append(o.name)
         bvals = dict((nm, probe[i]) for i, nm in ck.bound)
         if key not in state["seen"]:
@@ -856,7 +1087,13 @@ def triage(work, obls, res, cpp, state):
                       "rebuild: gcc -c -w -I. drv08.c -o drv.o && g++ -std=c++17 -O1 -w -I %s/src/include -I %s/src drv.o k08.cpp -o replay && ./replay one %s %s\n"
                       % (o.name, ck.what, failed, " ".join(args), out.strip(), common.REPO, common.REPO, ck.cid, " ".join(args)))
             ok_e2e, info = True, None
-            if ck.e2e:
+            if ck.e2e == "merge-extend":
+                ok_e2e, info, efiles = e2e_merge_extend(work)
+                files.update(efiles)
+                readme += ("\nend to end with the real interpreter (%s prog.dl -F. -D.):\n  program: see prog.dl (two search orders on the recursive eqrel relation)\n  facts: %s\n"
+                           "  expected in eq: %s\n  interpreter eq = %s\n  => %s\n" % (common.SOUFFLE, info["in"], info["expected"], info["interpreter_output"],
+                           "REPRODUCED (a pair derivable only through the implied knowledge of @delta is missing)" if ok_e2e else "not reproduced end to end"))
+            elif ck.e2e:
                 x = bvals.get("first", bvals.get("second"))
                 y = bvals.get("second", x)
                 if ck.pattern == "both-bound":
@@ -871,7 +1108,9 @@ def triage(work, obls, res, cpp, state):
                 state["seen"][key] = True
                 d = K.save_replay(PID, "k_" + key, files)
                 what = "%s: %s; bound value(s) %s" % (ck.what, failed, bvals)
-                if info:
+                if info and ck.e2e == "merge-extend":
+                    what += "; end to end: %s with %s: eq lacks %s (interpreter eq = %s)" % (info["program"], info["in"], info["expected"], info["interpreter_output"])
+                elif info:
                     what += "; end to end: `%s` with in=%s and lookup value %s outputs %s instead of %s" % (
                         info["program"], info["in"], info["lookup_value"], info["interpreter_output"], info["expected"])
                 res.violation(key, what, d)
